@@ -93,7 +93,11 @@ fn tmp_path(ctx: &Ctx, a: &[&str], ext: &str) -> String {
     let mut h = std::collections::hash_map::DefaultHasher::new();
     a.hash(&mut h); std::thread::current().id().hash(&mut h); ext.hash(&mut h);
     std::fs::create_dir_all(format!("{}/tmp", ctx.work)).ok();
-    format!("{}/tmp/io{:016x}.{ext}", ctx.work, h.finish())
+    // file names say nothing about file contents: the extension rotates over conventional ones (whatever format the file holds),
+    // an upper-case one, a double one, none that means anything
+    let hv = h.finish();
+    let ext = [ext, "npy", "txt", "sfs", "NPY", "saf.npy", "npy.txt", "gz"][(hv % 8) as usize];
+    format!("{}/tmp/io{:016x}.{ext}", ctx.work, hv)
 }
 
 fn cli_render(o: &cli::Out) -> String {
@@ -223,6 +227,28 @@ pub fn eval(ctx: &Ctx, op: &str, a: &[&str]) -> Option<String> {
             let code = o.status.code().unwrap_or(-1);
             let class = if stderr.contains("panicked at") || code == 101 || code == -1 { "PANIC" } else if code == 0 { "OK" } else { "ERR" };
             Some(format!("{class}|{code}"))
+        }
+        // stdout is a regular file that cannot grow beyond `limit` bytes (RLIMIT_FSIZE, SIGXFSZ ignored: the write that crosses the limit
+        // is cut short or fails with EFBIG — a full disk, a quota):  io.fsize fmt p shape bits limit
+        "io.fsize" => {
+            use std::io::Write as _;
+            use std::process::{Command, Stdio};
+            let input = crate::npy::write_f8(&parse_nats(a[2]), &parse_bits(a[3]));
+            let path = tmp_path(ctx, a, "lim");
+            let script = "import resource,signal,os,sys\nL=int(sys.argv[1])\nsignal.signal(signal.SIGXFSZ, signal.SIG_IGN)\nfd=os.open(sys.argv[2], os.O_WRONLY|os.O_CREAT|os.O_TRUNC, 0o644)\nos.dup2(fd,1)\nresource.setrlimit(resource.RLIMIT_FSIZE,(L,L))\nos.execv(sys.argv[3], sys.argv[3:])\n";
+            let mut child = match Command::new("python3").arg("-c").arg(script).arg(a[4]).arg(&path).arg(&ctx.sfs_bin)
+                .args(["view", "-O", a[0], "--precision", a[1]]).env("SFS_ALLOW_STDIN", "1").env("RUST_BACKTRACE", "0")
+                .stdin(Stdio::piped()).stdout(Stdio::null()).stderr(Stdio::piped()).spawn() { Ok(c) => c, Err(_) => return Some("NO-PYTHON".into()) };
+            let mut si = child.stdin.take()?;
+            let _ = si.write_all(&input); drop(si);
+            let o = child.wait_with_output().ok()?;
+            let stderr = String::from_utf8_lossy(&o.stderr).into_owned();
+            let code = o.status.code().unwrap_or(-1);
+            let written = std::fs::read(&path).unwrap_or_default();
+            let _ = std::fs::remove_file(&path);
+            if stderr.contains("Traceback") { return Some("NO-PYTHON".into()); }
+            let class = if stderr.contains("panicked at") || code == 101 || code == -1 { "PANIC" } else if code == 0 { "OK" } else { "ERR" };
+            Some(format!("{class}|{code}|{}", hex(&written)))
         }
         // history of an output path: write a long result to PATH, then a shorter one to the same PATH, read PATH back
         //   io.overwrite fmt p shape1 bits1 shape2 bits2
@@ -586,6 +612,12 @@ pub fn gen_c15(ctx: &Ctx, rng: &mut Rng, out: &mut Vec<String>) {
         out.push(format!("io.npyrt\t{}\t{}", nats(&shape), bits(&data)));
         if rng.chance(1, 4) { out.push(format!("io.npload\t{}\t{}", nats(&shape), bits(&data))); }
     }
+    // an npy file written to a path that already holds a longer file (npy or text): what is read back is the second spectrum only
+    for i in 0..(if t { 30 } else { 6 }) {
+        let (s1, d1) = { let sh = shapes::random_shape(rng, 2, 3, 3, 6, 300); let n: usize = sh.iter().product(); (sh, (0..n).map(|j| (j % 11) as f64 + 0.5).collect::<Vec<f64>>()) };
+        let (s2, d2) = { let sh = shapes::random_shape(rng, 1, 2, 1, 3, 9); let n: usize = sh.iter().product(); (sh, (0..n).map(|j| (j * 3 + i) as f64).collect::<Vec<f64>>()) };
+        out.push(format!("io.overwrite\tnpy\t{}\t{}\t{}\t{}\t{}", 3 + i % 6, nats(&s1), bits(&d1), nats(&s2), bits(&d2)));
+    }
     // reader: numpy-written files (dtype x byte order x version), with numpy's own conversion to float64 as third opinion
     let tools = format!("{}/../tools/npy_oracle.py", ctx.work);
     let o = std::process::Command::new("python3-vt").arg(&tools).arg("gen").arg(ctx.seed.to_string()).arg(if t { "thorough" } else { "quick" }).output();
@@ -811,6 +843,19 @@ pub fn gen_c18(ctx: &Ctx, rng: &mut Rng, out: &mut Vec<String>) {
             if si % 2 == 0 || t { out.push(format!("io.epipe\t{cmd}\t{args}\t{side},{side}\t{}", bits(&data))); }
         }
         if si % 3 == 0 { out.push(format!("io.epipe\tstat\t-s sum\t{side},{side}\t{}", bits(&data))); }
+    }
+    // stdout is a file that cannot grow beyond a limit (disk full / quota): the limit inside the header, inside the values, inside the
+    // last bytes (which a buffered writer hands over only when it is flushed), at and beyond the full length
+    for (si, n) in [3usize, 20, 200, 1100].into_iter().enumerate() {
+        let data: Vec<f64> = (0..n).map(|j| ((j * 7 + si) % 23) as f64 + if j % 5 == 0 { 0.5 } else { 0.0 }).collect();
+        for fmt in ["npy", "text"] {
+            let p = 2 + si;
+            let total = if fmt == "npy" { 128 + 8 * n } else { let mut b = Vec::new(); write::Builder::default().set_format(Format::Text).set_precision(p).write(&mut b, &Scs::new(data.clone(), vec![n]).unwrap()).unwrap(); b.len() };
+            let mut limits: Vec<usize> = vec![0, 1, 64, 127, 128, 129, 136, total / 2, total - 25, total - 9, total - 8, total - 7, total - 2, total - 1, total, total + 1, total + 100];
+            if total > 1024 { limits.extend([1023, 1024, 1025, total - 1024, total - 1023, total - 600]); }
+            limits.retain(|l| *l <= total + 100); limits.sort(); limits.dedup();
+            for (li, l) in limits.into_iter().enumerate() { if t || si < 2 || li % 2 == 0 || l + 30 > total { out.push(format!("io.fsize\t{fmt}\t{p}\t{n}\t{}\t{l}", bits(&data))); } }
+        }
     }
     // a call set larger than the 64 KiB detection prefix: chunk boundaries before, at and after offset 65536
     {
